@@ -723,6 +723,20 @@ func (e *Env) trAddr(x Expr) *Addr {
 					return v.A
 				}
 			}
+			for _, fv := range e.fr.fn.FreeVars {
+				if fv.Name() == x.Name {
+					return vc.addrOf(e.fr.regs[fv])
+				}
+			}
+		}
+		if e.cloFn != nil && e.cloVal != nil {
+			for i, fv := range e.cloFn.FreeVars {
+				if fv.Name() == x.Name {
+					vc.useCloEnv(i)
+					pt := fv.Type().(*types.Pointer)
+					return &Addr{Kind: aHeap, Ref: fmt.Sprintf("(clo_env_%d %s)", i, e.cloVal.S), BaseT: pt.Elem()}
+				}
+			}
 		}
 	case *Select:
 		// pointer.field or lvalue.field
@@ -750,6 +764,30 @@ func (e *Env) trAddr(x Expr) *Addr {
 		for i := 0; i < st.NumFields(); i++ {
 			if st.Field(i).Name() == x.Name {
 				return base.withStep(pathStep{Field: i, T: bt})
+			}
+		}
+	case *Call:
+		if x.Fun == "captured" && len(x.Args) == 2 {
+			id, ok1 := x.Args[0].(*Ident)
+			vn, ok2 := x.Args[1].(*Ident)
+			if ok1 && ok2 {
+				var fn *ssa.Function
+				if e.fr != nil {
+					fn = e.fr.topFrame().bind[id.Name]
+				}
+				if fn == nil && e.binds != nil {
+					fn = e.binds[id.Name]
+				}
+				if fn != nil {
+					cv := e.trVal(x.Args[0])
+					for i, fv := range fn.FreeVars {
+						if fv.Name() == vn.Name {
+							vc.useCloEnv(i)
+							pt := fv.Type().(*types.Pointer)
+							return &Addr{Kind: aHeap, Ref: fmt.Sprintf("(clo_env_%d %s)", i, cv.S), BaseT: pt.Elem()}
+						}
+					}
+				}
 			}
 		}
 	case *Index:
